@@ -211,3 +211,15 @@ func init() {
 		}
 	})
 }
+
+func init() {
+	register("DBGM", "debug: escaped emits of string-typed paths", func(c *Ctx, r *Report) {
+		for _, en := range c.T.Order {
+			for _, e := range c.T.Engines[en].Emits {
+				if !e.Unescaped {
+					fmt.Println("EMIT", en, e.Tpl, e.Expr, e.Type, e.Fields)
+				}
+			}
+		}
+	})
+}
